@@ -144,6 +144,9 @@ func (ck *checker) routes(e *jpref.Eq, elem any, class string, cs map[string]any
 		c.Violation("jp.Equation.Script", "panic", class, cs, "a script", p.String())
 		return nil, false
 	}
+	if cs != nil {
+		cs["script_text"] = script.String()
+	}
 	run := func(name string, f func() bool) {
 		var b bool
 		c.Eval(1)
@@ -159,6 +162,15 @@ func (ck *checker) routes(e *jpref.Eq, elem any, class string, cs map[string]any
 	run("Script.Match(again)", func() bool { return script.Match(elem) })
 	c.Cover("route:gen")
 	run("Script.Match(gen)", func() bool { return script.Match(toGen(elem)) })
+	// the printed form parsed back: && || ! and parentheses must combine exactly as the script prints
+	// (a text that does not parse at all is C14's business)
+	if hasIntegralFloat(e) {
+		c.Cover("parsed-text-skipped:integral-float-constant")
+	} else if s2, err := jp.NewScript(script.String()); err == nil && s2.String() == script.String() {
+		// (a text that does not print the same after parsing is a round-trip defect, C14)
+		c.Cover("route:parsed-text")
+		run("NewScript(String()).Match", func() bool { return s2.Match(elem) })
+	}
 	c.Cover("route:filter-in-get")
 	x := jp.Expr{filter}
 	run("Filter in Get", func() bool { return len(x.Get([]any{elem})) == 1 })
@@ -194,6 +206,19 @@ func (ck *checker) check(e *jpref.Eq, elem any, class string, cs map[string]any)
 		c.Cover("dont-care-cells")
 	}
 	return base, def, true
+}
+
+// hasIntegralFloat: a float constant with an integral value prints without a fraction and parses back as an
+// int, which changes arithmetic (that loss is C14's business, not a question of && || ! grouping).
+func hasIntegralFloat(e *jpref.Eq) bool {
+	if e == nil {
+		return false
+	}
+	if e.Op == "const" && e.Kind == "float" {
+		f, _ := e.Const.(float64)
+		return f == math.Trunc(f)
+	}
+	return hasIntegralFloat(e.L) || hasIntegralFloat(e.R)
 }
 
 func kindDesc(e *jpref.Eq, elem any) string {
